@@ -27,6 +27,32 @@ CHECKS = {
             "Reference popcount/Gray code are Python big-int; minimum-distance pairs taken within 1e-9 relative; known findings matched only when the emitted table equals the pinned defective table exactly.",
             "enumeration of constellations + label/neighbour monitor; reference-model comparison for the integer codes",
             "DESIGN.md §5 C15"),
+    "C12": ("exploration",
+            "An icontract postcondition on the real doWF (also fired by the calls block diagonalisation makes) checks on every call: "
+            "p >= 0, sum = Pt, KKT for the RETURNED water level, agreement with an independent longdouble closed-form water-filling, "
+            "50 feasible power moves never improve capacity, and permutation equivariance; gains span 12 decades, the number of "
+            "switched-off channels 0..n-1 is forced, Es != 1 in two thirds of the cases.",
+            "Backward-error tolerances 64 n eps (level + inverse gains); reference uses numpy longdouble.",
+            "icontract postcondition + independent reference solution + perturbation probe",
+            "DESIGN.md §5 C12"),
+    "C16": ("exploration",
+            "For every modulator/order (and PSK/QAM objects whose table was changed by phase-offset calls or replaced through "
+            "setConstellation) d_min is measured on the emitted table and SER/BER/PER/SE returned by the real methods are compared, "
+            "on a 361-point SNR grid plus random scalar/array inputs, with closed forms evaluated by an independent Q function and "
+            "with Craig's exact integral (PSK bounds); range, monotonicity, BER<=SER<=K BER, PER and SE relations are checked on every point.",
+            "SNR = Es/N0 with Es = 1 (unit energy is C01's obligation); absolute 4 eps allowed for the QAM 1-(1-p)^2 cancellation; Craig integral by scipy quad (1e-7 allowance).",
+            "oracle over enumerated modulators x SNR grid, closed forms from the measured constellation",
+            "DESIGN.md §5 C16"),
+    "C20": ("exploration",
+            "Each kernel is called on matrices built from an SVD with prescribed singular values (kappa known) and its defining "
+            "identities are evaluated with kappa-scaled backward-error tolerances against numpy references: projection (Hermitian, "
+            "idempotent, QA=A, complement, reflect twice), three chordal distances (agreement with a reference, symmetry, zero for a "
+            "basis change, unitary and rescaling invariance), gmd (reconstruction, orthonormal factors, constant diagonal), whitening, "
+            "diagonal-update inverse, peig/leig, least singular vectors, unit conversions over 30 decades (values, inverses, arguments "
+            "not mutated, repeatability), bit widths (exhaustive to 4096).  The evidence records the worst observed error/tolerance ratio per monitor.",
+            "np.linalg.eig-based kernels (whitening, peig/leig) are driven with eigenvalues separated by a relative gap >= 1e-3; get_principal_component_matrix only on tall/square inputs (its domain in the library).",
+            "defining-identity oracles with condition-number-scaled tolerances",
+            "DESIGN.md §5 C20"),
 }
 
 PENDING_REASON = "check not built yet in this session (design in DESIGN.md §5); will be claimed once its monitors run clean on the unchanged tree"
